@@ -574,7 +574,7 @@ func (e *Engine) validityDecision(f *ssa.Function, br *ssa.If) string {
 				*ssa.Convert, *ssa.ChangeType, *ssa.Extract, *ssa.Slice:
 				// computing the value to return: no effect besides the return itself
 			case *ssa.Call:
-				if h := x.Common().StaticCallee(); h == nil || h.String() != "errors.New" {
+				if h := x.Common().StaticCallee(); !load.IsErrCtor(h) {
 					return nil, false
 				}
 			case *ssa.Store:
